@@ -1,0 +1,9 @@
+// Copyright 2026 The OWASP Coraza contributors
+// SPDX-License-Identifier: Apache-2.0
+
+//go:build verif && coraza.no_memoize
+
+package memoize
+
+// VerifKeys: with the cache compiled out there are no entries (verification harness only).
+func VerifKeys() []string { return nil }
